@@ -173,7 +173,7 @@ impl Scenario for Bytes {
         let stratum = ((focus / 256 % 3) as u8, ((focus % 256) / 16) as u8);
         let style = STYLES[((run / 4) % STYLES.len() as u64) as usize];
         let max_actions = if tier == Tier::Quick { 80 } else { 200 };
-        let p = TypistParams { style, actions: rng.range(10, max_actions) as usize, stratum };
+        let p = TypistParams { style, actions: marathon(run, rng.range(10, max_actions) as usize), stratum };
         let mut ops = type_session(rng, &cfg, &p);
         // swarm: a random non-empty subset of fault kinds is enabled in this run
         let mut mask = rng.below(256) as u32;
